@@ -12,6 +12,7 @@ Case format (JSON lists, byte strings are lists of ints):
   ["v", 2, buffer, pid]      Vp8Encoder._packetize(buffer, pid), then parse of every payload
   ["v", 3, data]             parse of every prefix of data
 """
+import json
 import os
 import subprocess
 import tempfile
@@ -37,7 +38,8 @@ def _run_model_via_file(exe, cases_sx, timeout=1800):
     if p.returncode != 0 or len(lines) != len(cases_sx):
         raise RuntimeError(f"model driver failed rc={p.returncode} lines={len(lines)}/{len(cases_sx)}: "
                            + p.stderr.decode()[-500:])
-    return [fw.sx_loads(l) for l in lines]
+    # s-expressions of integers -> JSON (same nesting), parsed by the C json module
+    return [json.loads(l.replace("(", "[").replace(")", "]").replace(" ", ",")) for l in lines]
 
 
 fw.run_model = _run_model_via_file
@@ -96,12 +98,14 @@ def nal_size(rng):
         return rng.randrange(1306, 8000)
     if k < 0.90:
         return 2
-    if k < 0.975:
+    if k < 0.94:
         m = rng.randrange(6, 20)
         return m * 1298 + 1 + rng.randrange(-2, 3)
-    if k < 0.99:
+    if k < 0.95:
         m = rng.randrange(20, 47)
         return m * 1298 + 1 + rng.randrange(-2, 3)
+    if k < 0.994:
+        return rng.randrange(2, 1290)
     return rng.choice([60000, 59999, 60001, 65535, 65536, 65537])
 
 
@@ -135,8 +139,8 @@ def gen_nals(rng, clean=False):
         sizes = [nal_size(rng)]
     else:
         sizes = [nal_size(rng) for _ in range(rng.randrange(1, 16))]
-        if sum(sizes) > 200000:
-            sizes = sizes[:4]
+        while len(sizes) > 1 and sum(sizes) > 30000:                             # keep the quick tier quick
+            sizes.pop(rng.randrange(len(sizes)))
     return [nal(rng, n, clean=clean) for n in sizes]
 
 
@@ -242,16 +246,18 @@ class C16(Check):
     props_file = "Props/C16.v"
     models = ["H264", "Vp8"]
     quick_cases = 1600
-    thorough_cases = 48000
+    thorough_cases = 32000
     case_timeout = 5.0
     level_note = (
         "Theorems are about Model/H264.v and Model/Vp8.v (hand transcriptions of h264.py 52-104,131-246,317-319 and "
         "vpx.py 57-166,267-286); the size theorems are stated against the generated constants Gen/H264Const.v / "
         "Gen/VpxConst.v. Tie to the code = differential run of parse / _packetize / _packetize_fu_a / "
         "_packetize_stap_a / _split_bitstream / __bytes__ on generated inputs incl. a malformed stream (every "
-        "prefix, bit flips, length-field edits, random bytes). math.ceil(payload/available) is float division in "
+        "prefix, bit flips, length-field edits, random bytes); Encoder.pack() on real av.Packet objects and the "
+        "codecs.depayload() dispatch are exercised end-to-end by the oracle only. math.ceil(payload/available) is float division in "
         "Python and exact integer ceiling in the model (equal for every length below 2^40). The depayload dispatch "
-        "in codecs/__init__.py:107-113 (codec name -> function) is exercised but not modelled.")
+        "in codecs/__init__.py:107-113 (codec name -> function), H264Encoder.pack/Vp8Encoder.pack (picture id "
+        "increment modulo 2^15) and the libav encoders themselves are not modelled.")
     rule = ("H.264: 1-23 NAL units, sizes 2..65537 concentrated at 2, 1290..1305, k*1298+1+-3 (k=1..45), STAP-A "
             "groups of 2..11 units landing on 1297..1303 bytes, >9 tiny units; VP8: buffers 0..60001 concentrated at "
             "1290..1303 and k*1296/1297+-3, picture ids over the 7/15-bit boundary; descriptors: all 16 presence "
@@ -436,11 +442,9 @@ class C16(Check):
             if t == 28:
                 n = nals[i]
                 frags = []
-                while j < len(payloads) and (payloads[j][0] & 0x1F) == 28:
+                while j < len(payloads) and (payloads[j][0] & 0x1F) == 28 and not (frags and payloads[j][1] & 0x80):
                     frags.append(payloads[j])
                     j += 1
-                    if frags[-1][1] & 0x40:
-                        break
                 s_bits = [bool(f[1] & 0x80) for f in frags]
                 e_bits = [bool(f[1] & 0x40) for f in frags]
                 if len(n) <= LIMIT:
@@ -578,6 +582,107 @@ class C16(Check):
                         return ("vp8-lossy", f"depayloaded bytes differ from the buffer ({len(got)} vs {len(buf)} bytes)")
         return None
 
+    # ------------------------------------------------------------ exhaustive small scopes (implementation only)
+    def extra_checks(self, ctx):
+        """Every picture id 0..32767 through bytes()/parse; every NAL length 1301..6500 (thorough) or every
+        5th (quick) through _packetize; every VP8 buffer length 0..4000 (thorough) / every 7th (quick)."""
+        from harness.framework import canon
+        from aiortc.codecs.vpx import VpxPayloadDescriptor
+        bad = []
+        for pid in range(32768):
+            b = bytes(VpxPayloadDescriptor(partition_start=1, partition_id=0, picture_id=pid))
+            d, rest = VpxPayloadDescriptor.parse(b + b"\x9d")
+            if d.picture_id != pid or rest != b"\x9d" or d.partition_start != 1 or len(b) != (3 if pid < 128 else 4):
+                bad.append(("vp8-picture-id", f"picture id {pid} serialises to {list(b)} and parses back as "
+                                              f"{d.picture_id}", ["v", 1, [1, 0, [pid], [], [], []]]))
+                break
+        thorough = ctx["tier"] == "thorough"
+        self.exhaustive = {"picture_ids": 32768, "nal_lengths": 0, "vp8_lengths": 0}
+        for n in range(1301, 6501, 1 if thorough else 5):
+            case = ["h", 1, [[0x65] + [(i * 31 + n) & 0xFF for i in range(n - 1)]]]
+            r = self.oracle(case, canon(self.safe_impl(case)))
+            self.exhaustive["nal_lengths"] += 1
+            if r is not None:
+                bad.append((r[0], r[1], case))
+                break
+        for n in range(0, 4001, 1 if thorough else 7):
+            case = ["v", 2, [(i * 17 + n) & 0xFF for i in range(n)], (n * 37) % 32768]
+            r = self.oracle(case, canon(self.safe_impl(case)))
+            self.exhaustive["vp8_lengths"] += 1
+            if r is not None:
+                bad.append((r[0], r[1], case))
+                break
+        bad += self._end_to_end(ctx["rng"], 400 if thorough else 40)
+        return bad
+
+    def _end_to_end(self, rng, count):
+        """Encoder.pack() -> payloads -> codecs.depayload() on real av.Packet objects (observation points of the
+        property): size limit, lossless, VP8 picture id carried and advanced modulo 2^15."""
+        import fractions
+        from av.packet import Packet
+        from aiortc.codecs import depayload
+        from aiortc.codecs.h264 import H264Encoder
+        from aiortc.codecs.vpx import Vp8Encoder, VpxPayloadDescriptor
+        from aiortc.rtcrtpparameters import RTCRtpCodecParameters
+        h264 = RTCRtpCodecParameters(mimeType="video/H264", clockRate=90000, payloadType=97)
+        vp8 = RTCRtpCodecParameters(mimeType="video/VP8", clockRate=90000, payloadType=96)
+
+        def packet(data):
+            pk = Packet(len(data))
+            pk.update(data)
+            pk.pts = 1
+            pk.time_base = fractions.Fraction(1, 1000)
+            return pk
+        bad = []
+        self.exhaustive["end_to_end"] = 0
+        for _ in range(count):
+            nals = [nal(rng, max(2, min(nal_size(rng), 9000)), clean=True) for _ in range(rng.randrange(1, 8))]
+            buf = []
+            for n in nals:
+                buf += rng.choice([[0, 0, 1], SC4]) + n
+            payloads, _ts = H264Encoder().pack(packet(bytes(buf)))
+            got = b"".join(depayload(h264, p) for p in payloads)
+            want = b"".join(bytes(SC4 + n) for n in nals)
+            case = ["h", 2, buf, nals]
+            if any(len(p) > LIMIT for p in payloads):
+                bad.append(("h264-payload-too-big", "H264Encoder.pack produced a payload > 1300", case))
+            elif got != want:
+                bad.append(("h264-lossy", "H264Encoder.pack + depayload does not reproduce the bitstream "
+                                          f"(NAL sizes {[len(n) for n in nals]})", case))
+            enc = Vp8Encoder()
+            pid = rng.choice([0, 126, 127, 128, 32766, 32767, rng.randrange(32768)])
+            enc.picture_id = pid
+            frames = [bytes(rbytes(rng, min(vp8_size(rng), 9000))) for _ in range(3)]
+            for k, data in enumerate(frames):
+                payloads, _ts = enc.pack(packet(data))
+                want_pid = (pid + k) % 32768
+                case = ["v", 2, list(data), want_pid]
+                if any(len(p) > LIMIT for p in payloads):
+                    bad.append(("vp8-payload-too-big", "Vp8Encoder.pack produced a payload > 1300", case))
+                elif b"".join(depayload(vp8, p) for p in payloads) != data:
+                    bad.append(("vp8-lossy", "Vp8Encoder.pack + depayload does not reproduce the frame", case))
+                elif any(VpxPayloadDescriptor.parse(p)[0].picture_id != want_pid for p in payloads):
+                    bad.append(("vp8-picture-id", f"frame {k} after picture id {pid} does not carry {want_pid}", case))
+            self.exhaustive["end_to_end"] += 1
+            if bad:
+                break
+        return bad
+
+    def gen_validation(self):
+        """the generated constants equal the module attributes of the code under test"""
+        import re
+        import aiortc.codecs.h264 as h264
+        import aiortc.codecs.vpx as vpx
+        res = []
+        for fname, prefix, mod in (("H264Const.v", "h264_", h264), ("VpxConst.v", "vpx_", vpx)):
+            with open(os.path.join(fw.COQ, "Gen", fname)) as fp:
+                text = fp.read()
+            for name, val in re.findall(r"Definition (\w+) : Z := (-?\d+)\.", text):
+                attr = name[len(prefix):]
+                res.append((f"{fname}:{name} = {val} vs {mod.__name__}.{attr} = {getattr(mod, attr, None)}",
+                            getattr(mod, attr, None) == int(val)))
+        return res
+
     # ------------------------------------------------------------ bookkeeping
     def nontrivial(self, case, out):
         kind, op = case[0], case[1]
@@ -637,6 +742,7 @@ class C16(Check):
                     inc(f"v2_outcome_{o[0]}")
             else:
                 inc(f"{key}_outcome_{o[0]}")
+        d["exhaustive"] = getattr(self, "exhaustive", {})
         return d
 
     def describe_case(self, case):
